@@ -81,6 +81,8 @@ func c29(p *core.Program, r *core.Report) {
 	}
 	r.Floor("C29/R1 functions touching a guarded type", total, 120)
 	c29HandOut(p, r)
+	r.Rule("R4", "create-if-absent is atomic: every insertion into a guarded registry map (Field.viewMap, Index.fields, Holder.indexes, view.fragments) outside setup functions follows, on every path, a lookup in that map made since the write lock was last taken in that function; a lock-required helper that inserts without looking must be called only where such a lookup was made")
+	c29CreateIfAbsent(p, r)
 	// callers of the mutex vectors' Get must be fragment methods (which hold or require f.mu)
 	pk := p.Pkg("")
 	if pk != nil {
